@@ -68,6 +68,32 @@ def run(ctx):
                                                  r["obs"]["ret"], r["obs"]["rets"][:200]),
                       {"kind": "reassembler-scenario", "shapes": r["shapes"], "order": r["order"], "fault": r["fault"],
                        "observed": r["obs"]})
+    # before Read: the audit-log ingester feeding the line channel (FIFO -> framing -> channel). A consumer that is away
+    # until a send is blocked and then takes everything finds every line, in order (scenario "sendingthrough" of
+    # Pipeline!WorkerScenarios, judged by PipelineTrace): back-pressure delays records, it does not skip them
+    import os
+    wsc = ctx.tlc("PipelineMC", "Pipeline_scen.cfg", workers=1, timeout=120, name="workerscen")
+    thr = [x for x in vlib.tlc_prints(wsc["stdout"], "SCEN")[0] if x["state"] == "sendingthrough"]
+    if len(thr) < 3:
+        raise Infra("scenario sendingthrough not found")
+    wsp = ctx.path("through.json")
+    json.dump(thr, open(wsp, "w"))
+    fdir = ctx.path("fifos")
+    os.makedirs(fdir, exist_ok=True)
+    wtp = ctx.path("trace-through.ndjson")
+    ctx.run([ctx.go_build("./cmd/workers"), "-in", wsp, "-out", wtp, "-dir", fdir, "-reps", "2"], timeout=600)
+    wbad, _, _ = sshdfam.validate(ctx, wtp, "through", parts=1, module="PipelineTrace", cfg="PipelineTrace.cfg")
+    wrecs = [json.loads(l) for l in open(wtp)]
+    if not [r for r in wrecs if r.get("login") == "lines:ok"] and not wbad:
+        raise Infra("no back-pressure scenario was established")
+    for b in wbad:
+        r = b["rec"]
+        if b["what"] == "LineDroppedUnderBackPressure":
+            ctx.violation("LineDroppedUnderBackPressure/cap%d" % r["cap"],
+                          "audit-log ingester, line channel of capacity %d full while the consumer was away: %s"
+                          % (r["cap"], r.get("note", "")),
+                          {"kind": "worker-scenario", "scenario": {"worker": "A", "state": "sendingthrough", "cap": r["cap"],
+                                                                   "stall": 0}, "observed": r})
     recs = [json.loads(l) for l in open(tp)]
     badids = {b["rec"]["id"] for b in bad}
     muts = []
@@ -94,7 +120,7 @@ def run(ctx):
         "states": gen["distinct"], "transitions": gen["generated"], "traces_validated_against_impl": len(recs),
         "samples": [{"shapes": r["shapes"], "order": r["order"], "fault": r["fault"], "observed": r["obs"]}
                     for r in recs[:: max(1, len(recs) // 3)]][:3],
-        "scenarios": len(scs), "events_at_output": st["events"],
+        "scenarios": len(scs), "events_at_output": st["events"], "back_pressure_scenarios": len(wrecs),
         "faults": sorted({r["fault"]["kind"] for r in recs}),
         "binding_selftest_mutants_rejected": len(muts), "checker_cmd": gen["cmd"], "exhaustive": True,
     }
